@@ -11,6 +11,8 @@ for p in ALL:
         m = importlib.import_module(f"harness.{p.lower()}")
         assert hasattr(m, "LEVEL_TEXT")
     except Exception as e:
+        if os.path.exists(os.path.join(os.path.dirname(__file__), "..", "harness", f"{p.lower()}.py")):
+            raise SystemExit(f"harness/{p.lower()}.py exists but does not import cleanly ({type(e).__name__}: {e}); manifest NOT rewritten")
         na.append({"property_id": p, "reason": NA_REASON.get(p, "no check registered yet: model and harness for this property are still being built (see DESIGN.md section 5)")})
         continue
     checks.append({
